@@ -14,6 +14,7 @@ import (
 	"pgregory.net/rapid"
 
 	"verif/ev"
+	"verif/gen"
 	"verif/rp"
 	"verif/sandbox"
 )
@@ -897,6 +898,33 @@ func TestFmtBoundary(t *testing.T) {
 			c := FmtCase{Src: src}
 			s.Eval()
 			s.Class("fmt_line_crossing_64KiB")
+			if f := execFmtBinary(id(), s, b, c); f != nil && !seen[f.Sig] {
+				seen[f.Sig] = true
+				s.Violation("fmtbin", f.Sig, f.Msg, f.Size, c)
+			}
+		}
+	}
+	// whole files around and beyond 1 MiB (and a few MiB): nothing bounds the length of a spokfile, and
+	// what comes last in it counts as much as what comes first
+	for _, total := range []int{1<<20 - 64, 1 << 20, 1<<20 + 64, 2<<20 + 3, 5 << 20} {
+		for kind := 0; kind < 3; kind++ {
+			var sb strings.Builder
+			sb.WriteString("FIRST := \"head\"\n\n")
+			for i := 0; sb.Len() < total; i++ {
+				switch kind {
+				case 0:
+					fmt.Fprintf(&sb, "# note number %d about nothing in particular\n", i)
+				case 1:
+					fmt.Fprintf(&sb, "V%s := \"value %d\"\n", gen.Letters(i), i)
+				default:
+					fmt.Fprintf(&sb, "# does t%s\ntask t%s(\"in.txt\") {\n    echo %d\n}\n\n", gen.Letters(i), gen.Letters(i), i)
+				}
+			}
+			sb.WriteString("\n# the last one\ntask last() {\n    echo last\n}\n\nLAST := \"tail\"\n")
+			n++
+			c := FmtCase{Src: sb.String()}
+			s.Eval()
+			s.Class("fmt_file_of_a_megabyte_or_more")
 			if f := execFmtBinary(id(), s, b, c); f != nil && !seen[f.Sig] {
 				seen[f.Sig] = true
 				s.Violation("fmtbin", f.Sig, f.Msg, f.Size, c)
